@@ -40,7 +40,7 @@ MANIFEST = {
 def mk_state(h, drop='none'):
     cls = h.repo.find(M)
     B = h.int('bucket', 1)
-    cap = h.int('cap', 1)
+    cap = h.int('cap', 0)        # every constraint on the capacity comes from wf (proved preserved by each operation)
     arr = h.ctx.fresh_arr('array', n=cap, np=True)
     idx = h.int('index')
     if drop == 'none':
